@@ -322,7 +322,11 @@ def run(tier):
             samples.append({"label": r["label"], "mutation": r["desc"][:200], "opts": r["opts"], "exit": r["rc"], "stderr_tail": r["stderr"][-160:]})
     for r in results:
         shutil.rmtree(r["wd"], ignore_errors=True)
+    asan = {}
+    if not nq:
+        asan = asan_slice(chk, cases, rng)
     chk.coverage.update({
+        "asan": asan,
         "distinct_nontrivial": counts["rejected_or_changed"],
         "rule": "fault enumeration: all component-cycle shapes (length 1-4 x identity/scaled x export/non-export member x used-from-outside) x 3 option "
                 "sets exhaustively; FEA include graphs; sampled structural mutants of corpus seeds (truncate, drop/dup/swap lines or blocks, extreme "
@@ -334,6 +338,41 @@ def run(tier):
     chk.assumptions += ["exit 101 (uncaught main-thread panic: message, failure status, no font) is counted, not a violation - the unchanged tree does it on its own fixtures",
                         "termination is judged by CPU time (60 s, >400x the most expensive fixture), the wall-clock watchdog is inconclusive"]
     return chk.finish()
+
+
+def asan_slice(chk, cases, rng):
+    """A slice of the same cases under the AddressSanitizer build of the real CLI: memory errors on the error paths the
+    mutants drive (the front ends' parsers, glyph-data lookups with from_utf8_unchecked, the FEA parser's unsafe)."""
+    from . import sanitize
+    try:
+        afontc = sanitize.build("asan")["fontc"]
+    except common.Inconclusive as e:
+        chk.inconc({"why": "asan flavour could not be built"})
+        return {"status": f"not run: {e}"}
+    pick = rng.sample(cases, min(len(cases), 2000))
+    info = {"status": "ran", "runs": 0, "reports": 0}
+
+    def work(ic):
+        i, (label, src, opts, desc) = ic
+        wd = os.path.join(chk.scratch, f"a{i}")
+        os.makedirs(wd, exist_ok=True)
+        cmd = [afontc, src, "-o", os.path.join(wd, "font.ttf"), "--build-dir", os.path.join(wd, "build")] + list(opts)
+        env = common.fontc_env(threads=2, extra={"ASAN_OPTIONS": "halt_on_error=1 abort_on_error=0 detect_leaks=0 allocator_may_return_null=1"})
+        r = common.run(cmd, env=env, timeout=600, cpu_s=CPU_S * 6)
+        shutil.rmtree(wd, ignore_errors=True)
+        return label, desc, cmd, r
+    for label, desc, cmd, r in pmap(work, list(enumerate(pick)), workers=8):
+        info["runs"] += 1
+        if r.timed_out:
+            chk.inconc({"why": "asan watchdog", "case": desc[:100]})
+            continue
+        m = re.search(r"ERROR: AddressSanitizer: ([^\n]*)", r.stderr)
+        if m:
+            info["reports"] += 1
+            frame = re.search(r"#\d+ 0x[0-9a-f]+ in (\S+) (/repo/\S+)", r.stderr)
+            what = m.group(1).split(" on address")[0] + (f" in {frame.group(1)} {frame.group(2)}" if frame else "")
+            chk.violation("asan:" + re.sub(r"0x[0-9a-f]+|\d+", "N", what)[:100], f"AddressSanitizer: {what} on {label} [{desc[:160]}]", replay={"cmd": cmd, "label": label, "desc": desc})
+    return info
 
 
 def replay(path):
